@@ -172,10 +172,30 @@ func trailingBytes(c *vf.Ctx, V [][16]byte) {
 		f    func(b []byte) (int, error, []byte)
 	}
 	us := []un{
-		{"uuid.UUID", 0, func(b []byte) (int, error, []byte) { var u uuid.UUID; n, e := u.Unmarshal(b); m, _ := u.Marshal(); return n, e, m }},
-		{"UUIDv1", 1, func(b []byte) (int, error, []byte) { var u uuid_v1.UUIDv1; n, e := u.Unmarshal(b); m, _ := u.Marshal(); return n, e, m }},
-		{"UUIDv2", 2, func(b []byte) (int, error, []byte) { var u uuid_v2.UUIDv2; n, e := u.Unmarshal(b); m, _ := u.Marshal(); return n, e, m }},
-		{"UUIDv8", 8, func(b []byte) (int, error, []byte) { var u uuid_v8.UUIDv8; n, e := u.Unmarshal(b); m, _ := u.Marshal(); return n, e, m }},
+		{"uuid.UUID", 0, func(b []byte) (int, error, []byte) {
+			var u uuid.UUID
+			n, e := u.Unmarshal(b)
+			m, _ := u.Marshal()
+			return n, e, m
+		}},
+		{"UUIDv1", 1, func(b []byte) (int, error, []byte) {
+			var u uuid_v1.UUIDv1
+			n, e := u.Unmarshal(b)
+			m, _ := u.Marshal()
+			return n, e, m
+		}},
+		{"UUIDv2", 2, func(b []byte) (int, error, []byte) {
+			var u uuid_v2.UUIDv2
+			n, e := u.Unmarshal(b)
+			m, _ := u.Marshal()
+			return n, e, m
+		}},
+		{"UUIDv8", 8, func(b []byte) (int, error, []byte) {
+			var u uuid_v8.UUIDv8
+			n, e := u.Unmarshal(b)
+			m, _ := u.Marshal()
+			return n, e, m
+		}},
 	}
 	l := &local{c: c, n: map[string]int64{}}
 	defer l.flush()
